@@ -73,7 +73,10 @@ CLAIMED["C01"] = {
             "For Abs the emitted rows are also proved complete: for every value of the operand inside its derived range the intended auxiliary values satisfy all rows (a too-small big-M constant fails this). "
             "Supporting contracts proved on the real code: requirement reversal / scaling law, the linear-form algebra over the IndexMap view, expression rebuilding, queueing a constraint / declaring an auxiliary, "
             "and Linearizer::emit_constraint: the emitted row together with what the grown context demands implies the source constraint (requirement chosen from the comparison, constant moved across with its sign). "
-            "NOT decided and listed in the evidence as assumed arms: logic reification and assertion lowering, the model-level constraint loop and domain publication, the witness threading through nested auxiliaries, termination.",
+            "At model level the constraint loop of Linearizer::linearize (a statement slice of the real function) is proved to drain the queue and to end in a context whose demands (emitted rows, declared domains, derived box) imply EVERY constraint that was ever queued, "
+            "wherever both sides are defined: emit_constraint puts the row into the context, the row together with the context implies the source constraint, and popping / lowering preserves the invariant. "
+            "NOT decided / assumed (listed in the evidence): logic reification and assertion lowering (their soundness is an ASSUMED contract of the loop unit), the converse direction (no source-feasible point is cut off; big-M constants large enough), "
+            "domain publication after the loop, the equivalence between a sparse row and its dense coefficient vector (U08.coef gives the vector entry-wise), termination.",
     "note": "Trusted: prelude/f64_layer.rs (floats as exact extended reals), prelude/smap.rs (IndexMap<String,_> view), prelude/std_stubs.rs. BoundsAnalyzer::bounds_of is used through its contract, proved in U07.fwd. "
             "Rules: format! abstracted to opaque strings (R6), auxiliary counters abstracted (R21), masked arms end in a diverging stub.",
     "technique": "Verus contracts woven into Exp::linearize and its helpers extracted from linearizer.rs on every run; arm masking; ghost semantics oracle spec/semantics.rs",
